@@ -16,6 +16,7 @@
 """Service for handling deep config."""
 
 import os
+import sys
 from typing import Any, List, Dict, Tuple, Optional, Generator
 
 from deep import logging
@@ -176,6 +177,10 @@ class ConfigService:
         """
         in_app_include = self.__as_path_list(self.IN_APP_INCLUDE)
         in_app_exclude = self.__as_path_list(self.IN_APP_EXCLUDE)
+        # the interpreter's own files are never the application's: the environment form of the setting appends this,
+        # a value given in code has to mean the same
+        if sys.exec_prefix not in in_app_exclude:
+            in_app_exclude.append(sys.exec_prefix)
 
         for path in in_app_exclude:
             if self.__is_under(filename, path):
